@@ -294,7 +294,7 @@ class _Thread:
         self.global_num = num
         self.num = num
         self.ptid = (4242, 4242 + num - 1, 0)      # the first thread's LWP id equals the pid
-        self.name = 'stub'
+        self.name = 'stub' if num == 1 else None       # GDB: None when neither the user nor the target names the thread
 
 
 class Frame:
